@@ -2176,14 +2176,17 @@ impl Analyzable for ReferenceStep
 
 fn analyze_assignment_steps(
 	typer: &mut Typer,
+	base: &Identifier,
 	base_type: ValueType,
 	previous_steps: Vec<ReferenceStep>,
 	address_depth: u8,
-) -> (Vec<ReferenceStep>, u8)
+	location: &Location,
+) -> Result<(Vec<ReferenceStep>, u8), (Poison, Vec<ReferenceStep>)>
 {
 	let mut steps = Vec::new();
 	let mut current_type = base_type;
-	for step in previous_steps.into_iter()
+	let mut previous_steps = previous_steps.into_iter();
+	while let Some(step) = previous_steps.next()
 	{
 		let step = match step
 		{
@@ -2245,7 +2248,26 @@ fn analyze_assignment_steps(
 					{
 						current_type = element_type;
 					}
-					None => unreachable!(),
+					None =>
+					{
+						// The same error as for a read of this reference.
+						let previous = match typer.get_valid_declaration(base)
+						{
+							Some((_, previous)) => previous,
+							None => base.location.clone(),
+						};
+						let error = Error::NotAnArray {
+							current_type,
+							location: location.clone(),
+							previous,
+						};
+						steps.push(ReferenceStep::Element {
+							argument,
+							is_endless,
+						});
+						steps.extend(previous_steps);
+						return Err((Poison::Error(error), steps));
+					}
 				}
 				ReferenceStep::Element {
 					argument,
@@ -2279,7 +2301,13 @@ fn analyze_assignment_steps(
 					{
 						current_type = member_type;
 					}
-					Some(Err(_poison)) => unreachable!(),
+					Some(Err(_poison)) =>
+					{
+						// The error was reported at the member's declaration.
+						steps.push(ReferenceStep::Member { member, offset });
+						steps.extend(previous_steps);
+						return Err((Poison::Poisoned, steps));
+					}
 					None => unreachable!(),
 				}
 				ReferenceStep::Member { member, offset }
@@ -2324,7 +2352,7 @@ fn analyze_assignment_steps(
 			let step = ReferenceStep::Autoderef;
 			steps.push(step);
 		}
-		(steps, 0)
+		Ok((steps, 0))
 	}
 	else
 	{
@@ -2332,7 +2360,7 @@ fn analyze_assignment_steps(
 		// take an address for a value that is not a pointer.
 		let excess = ad - pd;
 		let address_depth = excess.try_into().unwrap_or(MAX_ADDRESS_DEPTH);
-		(steps, address_depth)
+		Ok((steps, address_depth))
 	}
 }
 
@@ -2384,12 +2412,27 @@ impl Reference
 
 		let (steps, excess_addresses) = match base_type
 		{
-			Some(Ok(base_type)) => analyze_assignment_steps(
+			Some(Ok(base_type)) => match analyze_assignment_steps(
 				typer,
+				base,
 				base_type,
 				steps,
 				self.address_depth,
-			),
+				&self.location,
+			)
+			{
+				Ok(analyzed) => analyzed,
+				Err((poison, steps)) =>
+				{
+					return Reference {
+						base: Err(poison),
+						steps,
+						address_depth: self.address_depth,
+						location: self.location,
+						location_of_unaddressed: self.location_of_unaddressed,
+					};
+				}
+			},
 			Some(Err(_poison)) => (steps, 0),
 			None => (steps, 0),
 		};
